@@ -7,9 +7,10 @@ ID = "C20"
 NATIVE_PROFILES = ["dev", "release"]
 META = {
     "bounds": "MIR of the same source compiled under {overflow-checks, debug-assertions} = on/on (dev) versus off/off, on/off, off/on and the packed layout "
-              "(quick: off/off and packed; thorough: all); every public operation of C01-C15 in its Decimal/Decimal form and with u8 / i64 / i128 operands "
-              "(thorough: all 9 types); both compilations are executed symbolically on the same inputs and every pair of paths must agree on "
-              "return-vs-panic and on the returned value; scales: quick subset, thorough all",
+              "(quick: off/off and packed; thorough: all five); every public operation of C01-C15 in its Decimal/Decimal form and with u8 / i64 / i128 operands "
+              "(thorough: all 9 types against the release compilation); both compilations are executed symbolically on the same inputs and every pair of paths must agree on "
+              "return-vs-panic and on the returned value; scales: quick subset; thorough all 361 pairs against the release compilation, boundary pairs + every 19th against the other four "
+              "(the full product was measured to run for more than 100 minutes and was cut down)",
     "outside_claim": ["opt-level 0 vs 3 and LLVM code generation (MIR is upstream of both): only exercised by replaying every counterexample on the dev and the "
                       "release build of the native driver", "panic messages (only panic-vs-return is compared)"],
     "assumptions": ["builtin models listed in coverage.builtin_models; operator impls of core on primitive integers follow the calling crate's overflow-check setting "
@@ -38,8 +39,9 @@ def configs(ctx):
 
 def cases(ctx):
     out = []
-    tys = INT9 if ctx.tier == "thorough" else ["u8", "i64", "i128"]
     for cfg in CFG_B[ctx.tier]:
+        # thorough: all 9 integer types against the release compilation, the three representative ones against the other four
+        tys = INT9 if (ctx.tier == "thorough" and cfg == CFG_B["thorough"][0]) else ["u8", "i64", "i128"]
         for op in BIN:
             out.append({"id": "%s|%s|dec-dec" % (cfg, op), "cfg": cfg, "op": op, "shape": "dd", "weight": 30})
             if op in ("mul_rounded",):
@@ -131,10 +133,14 @@ def lookup(prog, op, shape, ty):
     return get_fn(prog, op, [pre + lty, pre + rty] + extra, RET[op])
 
 
-def scale_sets(ctx, op, shape):
+def scale_sets(ctx, op, shape, cfg=None):
     if ctx.tier == "thorough":
         s19 = list(range(19))
         pairs = [(p, q) for p in s19 for q in s19]
+        if cfg is not None and cfg != CFG_B["thorough"][0]:
+            # all 361 scale pairs against the release configuration; boundary pairs + every 7th against the other four (measured: the full
+            # product for all five configurations runs for more than 100 minutes)
+            pairs = [pq for i, pq in enumerate(pairs) if i % 19 == 0 or pq[0] in (0, 18) and pq[1] in (0, 18) or abs(pq[0] - pq[1]) <= 1 and pq[0] in (0, 9, 18)]
     else:
         s19 = [0, 1, 9, 18]
         pairs = [(0, 0), (0, 18), (18, 0), (18, 18), (3, 5), (9, 10), (10, 9), (1, 0)]
@@ -221,9 +227,17 @@ def run_case(ctx, case):
         ns = [None]
         if op in ("div_rounded", "mul_rounded"):
             ns = ([0, 1, 9, 18, 19, 250] if ctx.tier == "quick" else list(range(0, 20)) + [37, 38, 39, 237, 238, 250, 255])
-        for (p, q) in scale_sets(ctx, op, shape):
-            for n in ns:
-                runs.append((p, q, n))
+        pq = scale_sets(ctx, op, shape, cfgB)
+        if ctx.tier == "thorough" and len(ns) > 6:
+            # every n for the boundary pairs, four representative n for all pairs (27 n x 361 pairs x 5 configurations does not finish in hours)
+            few = [(p, q) for (p, q) in pq if p in (0, 9, 18) and q in (0, 9, 18)]
+            for (p, q) in pq:
+                for n in (ns if (p, q) in few else [0, 9, 18, 19]):
+                    runs.append((p, q, n))
+        else:
+            for (p, q) in pq:
+                for n in ns:
+                    runs.append((p, q, n))
     for (p, q, n) in runs:
         st = State()
         xt = yt = None
